@@ -106,7 +106,7 @@ chk("C03",
     "deserialize(serialize(x)) = x whenever the fields have the configured widths, any other total length is refused, a successful parse returns "
     "exactly what was sent cut at the configured widths; generated keys of all nine schemes and the tokens of all seven schemes with a concatenation format - PiBas/PiPack (as used by a successful search), PiPtr/Pi2Lev (prf_f_output_length = param_lambda), SSE1 (every accepted configuration: label of param_l bytes from the bit PRP, mask of param_k + ceil(log2 s / 8) bytes), CT14 and ANSS16 - provably have those widths "
     "(every accepted configuration, via the HMAC P_hash length theorem of C16 and the split-length theorem of C17; ANSS16.key_roundtrip pins the width repaired by 0c28862). Search in the models is a function of the "
-    "deserialized objects only, so equal objects give equal results. Tie: (a) a TRANSLATOR - harness/translate/wire_layout.py regenerates Generated/WireLayout.lean from schemes/*/*/structures.py on every run (per key / token class the length deserialize insists on and the widths it cuts at, as Lean functions of the configuration fields; which objects are pickled) and the nine S.wire_is_source theorems prove for EVERY configuration that these are the widths of the wire model, that the checked length is the sum of the cut widths and that serialize joins as many fields as deserialize cuts; (b) the scheme correspondence (all nine schemes) + the direct oracle on "
+    "deserialized objects only, so equal objects give equal results. Tie: (a) a TRANSLATOR - harness/translate/wire_layout.py regenerates Generated/WireLayout.lean from schemes/*/*/structures.py on every run (per key / token class the length deserialize insists on and the widths it cuts at, as Lean functions of the configuration fields; which objects are pickled) and the nine S.wire_is_source theorems prove for EVERY configuration that these are the widths of the wire model, that the checked length is the sum of the cut widths and that serialize joins as many fields as deserialize cuts; the encrypted database's envelope (header || pickled parts) is modelled too: it round-trips for every header and payload and with a round-tripping codec (the law assumed of pickle) so does the object, a wrong header is refused, and edb_envelopes_are_source shows on the extracted facts that every deserialize checks the header it cuts off, that the nine headers are pairwise different and that the parts reach the constructor in the order serialize pickled them; (b) the scheme correspondence (all nine schemes) + the direct oracle on "
     "the real code: a FRESH scheme instance from the JSON round trip of the configuration, key / index / token / result deserialized from "
     "bytes, every stored and adversarially close absent keyword searched through the split and compared with DB.get(w), then a second session "
     "with a fresh key in the same process; one case per scheme (four in the thorough tier) also across REAL process boundaries: setup, token generation and the server's search in three interpreters with different hash seeds, files of bytes in between.",
